@@ -97,7 +97,8 @@ theorem decode_encode_file (p : Program) (convert : Bool) (hwf : WF p) :
     decodeFile convert (encodeFile p) = .ok (sem convert p) :=
   decodeFile_encodeFile p convert hwf
 
-example : decodeFile false (encodeFile exampleProgram) = .ok (sem false exampleProgram) := by rfl
+example : (match decodeFile false (encodeFile exampleProgram) with | .ok l => l | .error _ => []) =
+    [3, 6, 5, 17, 11, 18, 18, 24, 0, 28, 0, 48, 0, -52, 0, 88, 2, 102, 4, 116] := by decide +kernel
 
 /-- the monitored decoder (what the driver runs) returns the same samples, together with its verdict on
     whether every intermediate value stayed inside `int32` -/
@@ -152,7 +153,7 @@ theorem encoder_exists (version ftype n resn : Nat) (convert : Bool) (cols : Lis
     rw [this, List.map_id]
   have h2 : (fun v => toPcm convert ftype v) = id := by
     funext v
-    have : CONVERT_TYPES.contains ftype = false := by
+    have : ¬ ftype ∈ CONVERT_TYPES := by
       simp only [CONVERT_TYPES, TYPE_AU1, TYPE_AU2] at hpcm ⊢
       simp; omega
     simp [toPcm, this]
@@ -177,7 +178,7 @@ theorem encoder_exists_ulaw (version ftype n resn : Nat) (convert : Bool) (cols 
     (hne : cols ≠ []) (hn : 1 ≤ n) (hc : ∀ col ∈ cols, col.length = n)
     (hbytes : ∀ col ∈ cols, ∀ b ∈ col, b < 256) :
     ∃ p : Program, WF p ∧ p.hdr.ftype = ftype ∧ p.hdr.nchan = cols.length ∧
-      sem convert p = (interleave n (cols.map (fun col => col.map (fun b => (b : Int))))).map
+      sem convert p = (interleave n (cols.map (fun col => col.map (fun (b : Nat) => (b : Int))))).map
         (toPcm convert ftype) := by
   have hft : ftype < FTYPE_LIMIT := by rcases hau with rfl | rfl <;> decide
   refine ⟨diff0Program version ftype n resn (cols.map (fun col => col.map (auInward ftype))),
@@ -209,7 +210,8 @@ theorem early_end (p : Program) (convert : Bool) (hwf : WF p) (m : Nat) (hm : m 
     decodeBits (p.hdr.version : Int) convert ((encode p).take m) = .error (.io .eof) :=
   decodeBits_truncated p convert hwf m hm
 
-example : decodeBits 2 false ((encode exampleProgram).take 100) = .error (.io .eof) := by rfl
+example : (match decodeBits 2 false ((encode exampleProgram).take 100) with
+    | .error (.io .eof) => true | _ => false) = true := by decide +kernel
 
 /-- through the word reader: a file whose complete 32-bit words hold only a strict prefix of the encoded
     stream (truncation anywhere after the version byte, at any byte position) raises the IOError -/
@@ -219,7 +221,8 @@ theorem early_end_file (p : Program) (convert : Bool) (hwf : WF p) (body rest : 
     decodeFile convert body = .error (.io .eof) :=
   decodeFile_truncated p convert hwf body rest hb hm hv m hbits hlt
 
-example : decodeFile false ((encodeFile exampleProgram).take 30) = .error (.io .eof) := by rfl
+example : (match decodeFile false ((encodeFile exampleProgram).take 30) with
+    | .error (.io .eof) => true | _ => false) = true := by decide +kernel
 
 /-- an unknown function code (after any well-formed prefix of commands) raises the IOError -/
 theorem bad_cmd (p : Program) (convert : Bool) (hwf : WF p) (code : Nat) (hcode : FN_ZERO < code)
